@@ -502,8 +502,39 @@ RUN_CHILD_CASES = [
 #              w:customXml: transparent) | nothing (w:sectPr, bookmarks, ...)
 # nw image: plain concatenation.  sq image in *leading-blank normal form*: every piece is preceded by one blank,
 # so that "separated by whitespace" composes through nesting; the final claim is modulo the outer blank.
-TBLN = z3.Function("docx_table_nw", ELEM, B, S)        # specified concretely in replay/c02_trees.py (BOUNDED check of _extract_table_text)
+TBLN = z3.Function("docx_table_nw", ELEM, B, S)        # defined below (round 7); the token-level ground truth is in replay/c02_trees.py (BOUNDED check of _extract_table_text)
 TBLS = z3.Function("docx_table_sq", ELEM, B, S)
+# (round 7) the table text DEFINED as the fold the statement describes: rows in document order, the cells of each row, in each cell
+# the non-blank paragraphs joined by a blank.  "Rows of a table" / "cells of a row" / "paragraphs of a cell" are iter(tag) of the
+# etree model (pre-order descendants): for a table without nested tables these are exactly its rows, cells and paragraphs.
+TROWS_N, TROWS_S = z3.Function("docx_table_rows_nw", ELEM, I, B, S), z3.Function("docx_table_rows_sq", ELEM, I, B, S)
+TCELLS_N, TCELLS_S = z3.Function("docx_row_cells_nw", ELEM, I, B, S), z3.Function("docx_row_cells_sq", ELEM, I, B, S)
+TPARS_N, TPARS_S = z3.Function("docx_cell_paragraphs_nw", ELEM, I, B, S), z3.Function("docx_cell_paragraphs_sq", ELEM, I, B, S)
+
+
+def _iter_fold(F, tag, item):
+    def d(e, k, inc):
+        k1 = z3.simplify(k - 1)
+        return prefix_def(F(e, k, inc), k, cc(F(e, k1, inc), item(ET.ITER_AT(e, tag, k1), inc))) + [ET.ITER_N(e, tag) >= 0]
+    return d
+
+
+def table_nest_shape(rel, qual):
+    """The function is a nest of exactly three `for` loops over `.iter(...)` calls with no comprehension / generator / helper loop:
+    the shape the verified contract of _extract_table_text is written for (anything else keeps the assumed contract + bounded check)."""
+    import ast
+    from pyvc import loader
+    try:
+        fn = loader.module(rel).functions.get(qual)
+    except OSError:
+        return False
+    if fn is None:
+        return False
+    loops = [x for x in ast.walk(fn) if isinstance(x, (ast.For, ast.While, ast.ListComp, ast.GeneratorExp, ast.SetComp, ast.DictComp))]
+    return len(loops) == 3 and all(isinstance(x, ast.For) and isinstance(x.iter, ast.Call) and isinstance(x.iter.func, ast.Attribute)
+                                   and x.iter.func.attr == "iter" for x in loops)
+
+
 BODYN = z3.Function("docx_blocks_nw", ELEM, I, B, S)
 BODYS = z3.Function("docx_blocks_sq", ELEM, I, B, S)
 
@@ -523,6 +554,15 @@ def _blocks_def(F, par, tbl):
 
 define(BODYN, _blocks_def(BODYN, lambda c, inc: DXN.all_kids(c, inc), TBLN))
 define(BODYS, _blocks_def(BODYS, lambda c, inc: z3.If(DXN.all_kids(c, inc) == lit(""), lit(""), cc(" ", DXS.all_kids(c, inc))), TBLS))
+
+define(TPARS_N, _iter_fold(TPARS_N, W_P, lambda p, inc: DXN.all_kids(p, inc)))
+define(TPARS_S, _iter_fold(TPARS_S, W_P, lambda p, inc: z3.If(DXN.all_kids(p, inc) == lit(""), lit(""), cc(" ", DXS.all_kids(p, inc)))))
+define(TCELLS_N, _iter_fold(TCELLS_N, W_TC, lambda c, inc: TPARS_N(c, ET.ITER_N(c, W_P), inc)))
+define(TCELLS_S, _iter_fold(TCELLS_S, W_TC, lambda c, inc: TPARS_S(c, ET.ITER_N(c, W_P), inc)))
+define(TROWS_N, _iter_fold(TROWS_N, W_TR, lambda r, inc: TCELLS_N(r, ET.ITER_N(r, W_TC), inc)))
+define(TROWS_S, _iter_fold(TROWS_S, W_TR, lambda r, inc: TCELLS_S(r, ET.ITER_N(r, W_TC), inc)))
+define(TBLN, lambda t, inc: [TBLN(t, inc) == TROWS_N(t, ET.ITER_N(t, W_TR), inc)])
+define(TBLS, lambda t, inc: [TBLS(t, inc) == TROWS_S(t, ET.ITER_N(t, W_TR), inc)])
 
 BODY_CHILD_CASES = [
     ("paragraph", lambda t: t == W_P),
@@ -647,15 +687,54 @@ def docx_contracts():
         return X.mk_slist(ex, st, n, cat, lead, fresh=True)
 
     st_ = Sig(DOCX, TBL, ["table", "include_formulas"])
-    table = under(
-        DOCX, "_extract_table_text", TBL,
-        params=st_.params({"table": p_elem(), "include_formulas": p_bool()}),
-        assumed=True, result_maker=tbl_result,
-        ensures=[("nw", lambda c: NW(cat_of(c.st, c.result)) == TBLN(st_(c, "table").t, st_(c, "include_formulas").t)),
-                 ("sq", lambda c: lead_of(c.st, c.result) == TBLS(st_(c, "table").t, st_(c, "include_formulas").t)),
-                 ("pieces-not-blank", lambda c: (_sl(c.st, c.result)[0] == 0) == (NW(cat_of(c.st, c.result)) == lit("")))],
-        note="callee contract used by the body walk; the function itself is checked exhaustively over small trees (BOUNDED, replay/C02.py)",
-    )
+    tbl_clauses = [("nw", lambda c: NW(cat_of(c.st, c.result)) == TBLN(st_(c, "table").t, st_(c, "include_formulas").t)),
+                   ("sq", lambda c: lead_of(c.st, c.result) == TBLS(st_(c, "table").t, st_(c, "include_formulas").t)),
+                   ("pieces-not-blank", lambda c: (_sl(c.st, c.result)[0] == 0) == (NW(cat_of(c.st, c.result)) == lit("")))]
+    if table_nest_shape(DOCX, TBL):
+        # (round 7) VERIFIED: TBLN / TBLS are now DEFINED (the row / cell / paragraph folds above) and the three loops carry invariants
+        def iter_of(seq, tag):
+            """The element whose `iter(tag)` the loop runs over (None: another kind of loop)."""
+            n = getattr(seq, "length", None)
+            if isinstance(seq, VSeq) and seq.ekind == "Elem" and n is not None and z3.is_app(n) and n.decl().name() == ET.ITER_N.name() and n.arg(1).eq(tag):
+                return n.arg(0)
+            return None
+
+        def fold_inv(tag, FN, FS):
+            def inv(lc):
+                e, inc = iter_of(lc.seq, tag), top(lc, st_.name["include_formulas"]).t
+                (n0, c0, l0), (n, cat, lead) = grown(lc)
+                return Conj([("nw", NW(cat) == cc(NW(c0), FN(e, lc.i, inc))),
+                             ("sq", lead == cc(l0, FS(e, lc.i, inc))),
+                             ("pieces-not-blank", z3.Implies((n0 == 0) == (NW(c0) == lit("")), (n == 0) == (NW(cat) == lit(""))))])
+            return inv
+
+        table = under(
+            DOCX, "_extract_table_text", TBL,
+            params=st_.params({"table": p_elem(), "include_formulas": p_bool()}),
+            result_maker=tbl_result,
+            ensures=[need_loops("rows", "cells", "paragraphs")] + [(f"{nm}(result)==docx_table_{nm}(table)" if nm != "pieces-not-blank" else nm, X.robust(f))
+                                                                    for nm, f in tbl_clauses],
+            note="the table text is, by definition, the fold over the rows table.iter(w:tr), their cells row.iter(w:tc) and the non-blank "
+                 "paragraphs cell.iter(w:p) of each cell joined by a blank (that iter() also reaches the rows of a NESTED table is the recorded "
+                 "finding F20-docx-nested-table, decided by the bounded token check, not by this definition)",
+        )
+        specs = {"rows": (W_TR, TROWS_N, TROWS_S), "cells": (W_TC, TCELLS_N, TCELLS_S), "paragraphs": (W_P, TPARS_N, TPARS_S)}
+
+        def table_loops(ex, st, node, it):
+            for label, (tag, FN, FS) in specs.items():
+                if iter_of(it, tag) is not None:
+                    return matched(ex, LoopSpec(inv=fold_inv(tag, FN, FS), label=label))
+            return None
+        table.loop_match = table_loops
+    else:
+        table = under(
+            DOCX, "_extract_table_text", TBL,
+            params=st_.params({"table": p_elem(), "include_formulas": p_bool()}),
+            assumed=True, result_maker=tbl_result,
+            ensures=tbl_clauses,
+            note="callee contract used by the body walk (ASSUMED: the function is not the three-loop nest the verified contract is written for); "
+                 "the function itself is checked exhaustively over small trees (BOUNDED, replay/C02.py)",
+        )
     sb = Sig(DOCX, BODY, ["body", "include_formulas"])
 
     def body_inv(lc):
